@@ -16,7 +16,7 @@ func init() { register("C04", c04) }
 func c04(c *Ctx) {
 	r := c.R
 	r.Explanation = "Partial: the resume protocol of GetMessages has a fixed shape whose parts are each a necessary condition of 'the concatenation of what the client received is exactly its stream, nothing missing, nothing twice'. Decided: (P1) the remainder of the batch named by lastseen is sent first, sliced at exactly lastseen.Reply under the bound test that keeps the slice in range; (P2) the follow loop delivers a batch only on the false edge of 'batch older than the position' and after advancing the position to it; (P3) a batch whose id equals the position's id (the node applied it only after the request started) is never delivered whole: it is re-sliced at the position's Reply before the position is advanced; (P4) every message written to the connection passed the test 'ping or addressed to this session'; (P5) the position is built from the two parts of the lastseen parameter in order (id from the first, reply from the second); (P6) a new GetMessages request for a session cancels the older one before it is registered, and is registered before its reader goroutine starts. Not decided: what GetNext returns under concurrent Add/Delete (C08), and the window in which a node that is behind catches up past the named batch between two look-ups (a schedule)."
-	r.Rules = []string{"C04.P1 remainder of the named batch", "C04.P2 follow loop never goes backwards", "C04.P3 partially seen batch is re-sliced", "C04.P4 per-session filter", "C04.P5 position from lastseen", "C04.P6 one reader per session", "C04.P7 current stream on every call", "C04.P8 one batch per entry"}
+	r.Rules = []string{"C04.P1 remainder of the named batch", "C04.P2 follow loop never goes backwards", "C04.P3 partially seen batch is re-sliced", "C04.P4 per-session filter", "C04.P5 position from lastseen", "C04.P6 one reader per session", "C04.P7 current stream on every call", "C04.P8 one batch per entry", "C04.P9 output is numbered in one place"}
 	r.Assumptions = []string{"OutputStream.Get/GetNext honour their contract (C08's clauses); batches are added in increasing id order"}
 
 	gm := c.MustFunc("api.(*HTTP).getMessages")
@@ -817,6 +817,47 @@ func c04(c *Ctx) {
 		c.errorDiscipline("C04.P8", sm, "the replies of an entry are reported as stored although the output stream refused them")
 	} else {
 		r.Break("anchor function main.sendMessages not found in /repo")
+	}
+	// ---------- P9: output is numbered in one place. Reply numbers (1, 2, …) are handed out by IRCServer.send; the resume
+	// protocol relies on "<entry>.<k> = k-th reply of the entry". So a reply context is created only inside package ircserver
+	// and sendMessages is given nothing but what ProcessMessage returned
+	{
+		nLit, nCall := 0, 0
+		for _, fi := range c.P.AllFuncs {
+			if fi.Body() == nil {
+				continue
+			}
+			info := fi.Info()
+			pkg := load.ShortPkg(fi.Pkg.PkgPath)
+			for _, cl := range compositeLitsOf(info, fi.Body(), pathIrcsrv, "Replyctx") {
+				nLit++
+				r.Check(pkg == "ircserver", "C04.P9", fi.Name(), "reply contexts are created by the IRC server only", c.P.Pos(cl.Pos()), "literal inside package ircserver",
+					"a reply context is built by hand outside the IRC server: its messages do not get their reply numbers from send() (a hand-made message with Reply 0 sits at the position a client resumes from, so it is delivered again on every reconnect)")
+			}
+			if pkg != "main" {
+				continue
+			}
+			for _, call := range astx.Calls(fi.Body(), true) {
+				fn := astx.Callee(info, call)
+				if fn == nil || !isFunc(fn, "main", "sendMessages") || len(call.Args) < 1 {
+					continue
+				}
+				nCall++
+				ok := false
+				if d := uniqueDef(info, fi.Node(), call.Args[0]); d != nil {
+					if pc, isCall := ast.Unparen(d).(*ast.CallExpr); isCall {
+						if pf := astx.Callee(info, pc); pf != nil && fname(pf) == "ProcessMessage" {
+							ok = true
+						}
+					}
+				}
+				r.Check(ok, "C04.P9", fi.Name(), "sendMessages stores what ProcessMessage returned", c.P.Pos(call.Pos()), "argument defined by <server>.ProcessMessage(…)",
+					"the replies handed to the output stream are not the reply context ProcessMessage returned: their ids are not the ones send() assigned")
+			}
+		}
+		if nLit < 1 || nCall < 2 {
+			r.Break("C04.P9: %d reply-context literals / %d sendMessages calls found", nLit, nCall)
+		}
 	}
 	r.Floor("C04.P1", 5)
 	r.Floor("C04.P2", 3)
